@@ -29,12 +29,18 @@ struct Op {
   long k = 0, s = 0, v = 0, t = 0;
 };
 
+// Sizes handed to the containers are multiplied by g_scale and sizes read back are divided by it (the reference list is
+// linear in the sizes), so that histories also run with entry sizes and size differences far beyond 32 bits.
+static long g_scale = 1;
+static size_t SZ(long s) { return (size_t)s * (size_t)g_scale; }
+static long US(size_t x) { return (x % (size_t)g_scale) == 0 ? (long)(x / (size_t)g_scale) : -123456; }
+
 struct XSet : phosg::LRUSet<int> {
   vector<Ent> fwd() {
     vector<Ent> r;
     size_t cap = this->items.size() + 2;
     for (Item* i = this->head; i; i = i->next) {
-      r.push_back({*i->key, (long)i->size, 0});
+      r.push_back({*i->key, US(i->size), 0});
       if (r.size() > cap) {
         r.push_back({-99, 0, 0});
         break;
@@ -46,7 +52,7 @@ struct XSet : phosg::LRUSet<int> {
     vector<Ent> r;
     size_t cap = this->items.size() + 2;
     for (Item* i = this->tail; i; i = i->prev) {
-      r.push_back({*i->key, (long)i->size, 0});
+      r.push_back({*i->key, US(i->size), 0});
       if (r.size() > cap) {
         r.push_back({-99, 0, 0});
         break;
@@ -55,18 +61,18 @@ struct XSet : phosg::LRUSet<int> {
     return r;
   }
   vector<long> apply(const Op& o) {
-    if (o.op == "insert") return {(long)this->insert((int)o.k, (size_t)o.s)};
+    if (o.op == "insert") return {(long)this->insert((int)o.k, SZ(o.s))};
     if (o.op == "emplace") {
       int k = (int)o.k;
-      return {(long)this->emplace(std::move(k), (size_t)o.s)};
+      return {(long)this->emplace(std::move(k), SZ(o.s))};
     }
     if (o.op == "erase") return {(long)this->erase((int)o.k)};
-    if (o.op == "change_size") return {(long)this->change_size((int)o.k, (size_t)o.s)};
-    if (o.op == "touch") return {(long)this->touch((int)o.k, (ssize_t)o.s)};
+    if (o.op == "change_size") return {(long)this->change_size((int)o.k, SZ(o.s))};
+    if (o.op == "touch") return {(long)this->touch((int)o.k, (o.s < 0 ? (ssize_t)o.s : (ssize_t)SZ(o.s)))};
     if (o.op == "evict") {
       try {
         auto p = this->evict_object();
-        return {p.first, (long)p.second};
+        return {p.first, US(p.second)};
       } catch (const out_of_range&) {
         return {-1};
       }
@@ -74,7 +80,7 @@ struct XSet : phosg::LRUSet<int> {
     if (o.op == "peek") {
       try {
         auto p = this->peek();
-        return {p.first, (long)p.second};
+        return {p.first, US(p.second)};
       } catch (const out_of_range&) {
         return {-1};
       }
@@ -83,7 +89,7 @@ struct XSet : phosg::LRUSet<int> {
       this->clear();
       return {};
     }
-    if (o.op == "size") return {(long)this->size()};
+    if (o.op == "size") return {US(this->size())};
     if (o.op == "count") return {(long)this->count()};
     return {-77};
   }
@@ -94,7 +100,7 @@ struct XMap : phosg::LRUMap<int, int> {
     vector<Ent> r;
     size_t cap = this->items.size() + 2;
     for (Item* i = this->head; i; i = i->next) {
-      r.push_back({*i->key, (long)i->size, i->value});
+      r.push_back({*i->key, US(i->size), i->value});
       if (r.size() > cap) {
         r.push_back({-99, 0, 0});
         break;
@@ -106,7 +112,7 @@ struct XMap : phosg::LRUMap<int, int> {
     vector<Ent> r;
     size_t cap = this->items.size() + 2;
     for (Item* i = this->tail; i; i = i->prev) {
-      r.push_back({*i->key, (long)i->size, i->value});
+      r.push_back({*i->key, US(i->size), i->value});
       if (r.size() > cap) {
         r.push_back({-99, 0, 0});
         break;
@@ -119,14 +125,14 @@ struct XMap : phosg::LRUMap<int, int> {
       if (variant & 1) {  // the copying overload
         const int k = (int)o.k;
         const int v = (int)o.v;
-        return {(long)this->insert(k, v, (size_t)o.s)};
+        return {(long)this->insert(k, v, SZ(o.s))};
       }
       int k = (int)o.k, v = (int)o.v;
-      return {(long)this->insert(std::move(k), std::move(v), (size_t)o.s)};
+      return {(long)this->insert(std::move(k), std::move(v), SZ(o.s))};
     }
     if (o.op == "emplace") {
       int k = (int)o.k, v = (int)o.v;
-      return {(long)this->emplace(std::move(k), std::move(v), (size_t)o.s)};
+      return {(long)this->emplace(std::move(k), std::move(v), SZ(o.s))};
     }
     if (o.op == "erase") return {(long)this->erase((int)o.k)};
     if (o.op == "at") {
@@ -142,17 +148,17 @@ struct XMap : phosg::LRUMap<int, int> {
     }
     if (o.op == "item_size") {
       try {
-        return {(long)this->item_size((int)o.k)};
+        return {US(this->item_size((int)o.k))};
       } catch (const out_of_range&) {
         return {-1};
       }
     }
-    if (o.op == "change_size") return {(long)this->change_size((int)o.k, (size_t)o.s, o.t != 0)};
-    if (o.op == "touch") return {(long)this->touch((int)o.k, (ssize_t)o.s)};
+    if (o.op == "change_size") return {(long)this->change_size((int)o.k, SZ(o.s), o.t != 0)};
+    if (o.op == "touch") return {(long)this->touch((int)o.k, (o.s < 0 ? (ssize_t)o.s : (ssize_t)SZ(o.s)))};
     if (o.op == "evict") {
       try {
         auto p = this->evict_object();
-        return {p.key, p.value, (long)p.size};
+        return {p.key, p.value, US(p.size)};
       } catch (const out_of_range&) {
         return {-1};
       }
@@ -161,7 +167,7 @@ struct XMap : phosg::LRUMap<int, int> {
       this->clear();
       return {};
     }
-    if (o.op == "size") return {(long)this->size()};
+    if (o.op == "size") return {US(this->size())};
     if (o.op == "count") return {(long)this->count()};
     if (o.op == "empty") return {(long)this->empty()};
     return {-77};
@@ -190,14 +196,14 @@ static string op_event(C& c, int inst, const Op& o, const vector<long>& ret) {
   vt::J j;
   j.str("e", "op").num("i", inst).str("op", o.op).num("k", o.k).num("s", o.s).num("v", o.v).num("t", o.t);
   j.raw("ret", ints(ret)).raw("fwd", ents(c.fwd())).raw("bwd", ents(c.bwd()));
-  j.num("size", (long long)c.size()).num("count", (long long)c.count());
+  j.num("size", (long long)US(c.size())).num("count", (long long)c.count());
   return j.done();
 }
 template <class C>
 static string swap_event(C& a, C& b) {
   vt::J j;
   j.str("e", "swap").raw("fwd1", ents(a.fwd())).raw("bwd1", ents(a.bwd())).raw("fwd2", ents(b.fwd()));
-  j.raw("bwd2", ents(b.bwd())).num("size1", (long long)a.size()).num("size2", (long long)b.size());
+  j.raw("bwd2", ents(b.bwd())).num("size1", (long long)US(a.size())).num("size2", (long long)US(b.size()));
   j.num("count1", (long long)a.count()).num("count2", (long long)b.count());
   return j.done();
 }
@@ -225,6 +231,9 @@ template <class C>
 static void random_history(vt::Trace& tr, vt::Rng& r, bool is_map, int len) {
   int nkeys = 1 + r.below(8);
   int maxsize = r.chance(50) ? 2 : 1000;
+  // a third of the histories runs with sizes scaled far beyond 32 bits (size differences of 2^31, 2^33, 2^40 ...)
+  static const long SCALES[] = {1, 1, 1, 1L << 20, 1L << 31, 1L << 33, (1L << 40) + 1};
+  g_scale = SCALES[r.below(7)];
   C* a = new C();
   C* b = new C();
   tr.emit(string("{\"e\":\"Reset\",\"fl\":\"") + (is_map ? "map" : "set") + "\"}");
@@ -261,6 +270,7 @@ static void random_history(vt::Trace& tr, vt::Rng& r, bool is_map, int len) {
   }
   delete a;
   delete b;
+  g_scale = 1;
 }
 
 // ---------------------------------------------------------------- table walk
@@ -342,7 +352,7 @@ static bool run_path(const Table& t, const vector<int>& path, bool two, string* 
     reverse(bw.begin(), bw.end());
     long total = 0;
     for (auto& e : t.states[s]) total += e[1];
-    if (ret != exp.second || f != t.states[s] || bw != f || (long)c.size() != total ||
+    if (ret != exp.second || f != t.states[s] || bw != f || US(c.size()) != total ||
         c.count() != t.states[s].size())
       ok = false;
     if (!ok && !dump) break;
